@@ -11,18 +11,24 @@ from ..util import switch_table, find_switches, is_assign
 
 EXPLANATION = (
     "Static decision of table clauses of C13: the Thrift struct grammars written by "
-    "src/thrift/parquet_types.c (and the page-index writers) and parsed by its parsers are "
-    "extracted from the resolved AST (ordered thrift_write_* call sequences; field loops with their "
-    "switch/if dispatch) and compared field by field (id, wire type, struct member, presence flag, "
-    "list element type, nested struct) with each other and with a frozen parquet.thrift table; "
-    "every parser loop skips unknown fields with the field's own type and thrift_skip has an arm "
-    "for all 13 compact wire types; struct begin/end are balanced on every non-error path; the "
-    "field-id delta state (last_field_id) is updated on every path of both header codecs; the four "
-    "header codecs (field and list header, encoder and decoder) are executed abstractly over their whole "
-    "input space (all 256 header bytes, id deltas -20..40, counts -4..64) and must produce/accept exactly "
-    "the compact-protocol short and long forms; every field header is read/written inside a field-id "
-    "frame (helpers are followed to their callers); field helpers and nested-struct helpers are expanded "
-    "into the struct-level writer/parser before comparison; integers go through zigzag on both sides. Decides these clauses, not value equality for extreme integers/strings.")
+    "src/thrift/parquet_types.c (and the page-index writers) and parsed by its parsers are extracted from "
+    "the resolved AST (ordered thrift_write_* call sequences; field loops with their switch/if dispatch) "
+    "and compared field by field (id, wire type, struct member, presence flag, list element type, nested "
+    "struct) with each other and with a frozen parquet.thrift table; every parser loop skips unknown "
+    "fields with the field's own type and thrift_skip has an arm for all 13 compact wire types; struct "
+    "begin/end are balanced on every non-error path; the field-id delta state (last_field_id) is updated "
+    "on every path of both header codecs; the four header codecs (field and list header, encoder and "
+    "decoder) are executed abstractly over their whole input space (all 256 header bytes, id deltas "
+    "-20..40, counts -4..64) and must produce/accept exactly the compact-protocol short and long forms; "
+    "every field header is read/written inside a field-id frame (helpers are followed to their callers); "
+    "field helpers and nested-struct helpers are expanded into the struct-level writer/parser before "
+    "comparison; integers go through zigzag on both sides. The LogicalType union is decided by abstract "
+    "execution: parse_logical_type run once per union field id 1..17 and write_logical_type once per "
+    "logical type id, Thrift primitives hooked - the field id <-> logical type id tables of both are the "
+    "specification's (ids agree up to 8 and differ above, 9 is reserved) and each other's inverse. A "
+    "`return` guarded by a failed error predicate (a static bool helper whose every false return records "
+    "a decoder error) is an error exit of the balance rule. Decides these clauses, not value equality for "
+    "extreme integers/strings.")
 
 PT = "src/thrift/parquet_types.c"
 TE = "src/thrift/thrift_encode.c"
